@@ -394,7 +394,9 @@ def generate(ctx):
     for _ in range(ctx.n(60, 800)):
         n = rng.randint(1, 40)
         yield "tree", {"sizes": [rng.choice([0, 1, 1, 2]) for _ in range(n)], "se": rng.choice([2, 3, 4, 8, None, False])}
-    for _ in range(ctx.n(60, 600)):
+    yield "randomsample", {"parts": [[1, 2, 3, 4], [], [5, 6, 7], [8]], "prob": 0.5, "seed": 1234, "by_part": True,
+                           "processes": True}      # one multiprocessing run in every tier
+    for _ in range(ctx.n(120, 1200)):
         parts = gen_parts(rng)
         yield "randomsample", {"parts": parts, "prob": rng.choice([0.0, 0.2, 0.5, 0.5, 0.8, 1.0]),
                                "seed": rng.getrandbits(30), "by_part": rng.random() < 0.3,
@@ -402,7 +404,7 @@ def generate(ctx):
     yield "sample", {"parts": [[0], [1], [2]], "k": 4, "se": None, "seed": 0}
     yield "sample", {"parts": [[1, 2], [3]], "k": 0, "se": None, "seed": 0}
     yield "choices", {"parts": [[1, 2], [3]], "k": 0, "se": None, "seed": 0}
-    for _ in range(ctx.n(110, 1500)):
+    for _ in range(ctx.n(220, 2500)):
         parts = gen_parts(rng)
         n = sum(map(len, parts))
         k = rng.choice([0, 1, 2, max(0, n - 1), n, n, n + 1, rng.randint(0, n + 2)])
